@@ -26,6 +26,8 @@ props.prop(
     not_decided='that the masks of elementary selections are right (C04/C09), result shapes, selections '
                 'defined outside the package',
     assumptions=['numpy &,|,^,~ on boolean masks are elementwise', 'SubsetState subclasses outside glue/ are not seen'])
+props.also('C01',
+           'that the edit-mode dispatcher applies the mode to every edited subset unconditionally; that the many-way or keeps a list of its own (copy, original and caller never share it)')
 
 SUBSET = 'glue.core.subset'
 EXPECT = {'AND': lambda a, b: a.AND(b), 'OR': lambda a, b: a.OR(b), 'XOR': lambda a, b: a.XOR(b)}
